@@ -543,6 +543,7 @@ package astisub
 //@   prop C08 C18
 //@   requires i != nil
 //@   ensures [C18-fault-reported] i.failed || i.overlong ==> err != nil
+//@   opt frame-assumed writes only memory allocated during the call (not proved for readers; used where a wrapper calls them)
 //@ end
 
 //@ func parseTextSrt(i string, sa *StyleAttributes) (o Line)
@@ -560,6 +561,7 @@ package astisub
 //@   requires writable(s) && o != nil
 //@   requires !o.wfailed
 //@   ensures [C18-fault-reported] o.wfailed ==> err != nil
+//@   assigns ghost(wfailed), ghost(src)
 //@ end
 
 //@ func parseTextWebVTT(i string, sa *StyleAttributes) (o Line)
@@ -572,12 +574,17 @@ package astisub
 //@   requires writable(s) && o != nil
 //@   requires !o.wfailed
 //@   ensures [C18-fault-reported] o.wfailed ==> err != nil
-//@   loop 2: invariant forall m int :: 0 <= m && m < len(k) ==> has(s.Regions, k[m])
+//@   loop 1: invariant forall m int :: 0 <= m && m < len(styleIDs) ==> has(s.Styles, styleIDs[m])
+//@   loop 1: invariant len(c) >= 1
 //@   loop 2: invariant len(c) >= 1
+//@   loop 2: invariant forall m int :: 0 <= m && m < len(styleIDs) ==> has(s.Styles, styleIDs[m])
+//@   loop 3: invariant forall m int :: 0 <= m && m < len(k) ==> has(s.Regions, k[m])
 //@   loop 3: invariant len(c) >= 1
 //@   loop 4: invariant len(c) >= 1
 //@   loop 5: invariant len(c) >= 1
 //@   loop 6: invariant len(c) >= 1
+//@   loop 7: invariant len(c) >= 1
+//@   assigns ghost(wfailed), ghost(src)
 //@ end
 
 // ---- SSA ----
@@ -589,12 +596,14 @@ package astisub
 //@   loop 1: invariant (sectionName == "events" || sectionName == "styles") ==> format != nil
 //@   loop 1: invariant forall m int :: 0 <= m && m < len(es) ==> es[m] != nil
 //@   loop 1: invariant forall m int :: 0 <= m && m < len(ss) ==> ss[m] != nil
+//@   opt frame-assumed writes only memory allocated during the call (not proved for readers; used where a wrapper calls them)
 //@ end
 
 //@ func ReadFromSSA(i io.Reader) (o *Subtitles, err error)
 //@   prop C08 C18
 //@   requires i != nil
 //@   ensures [C18-fault-reported] i.failed || i.overlong ==> err != nil
+//@   opt frame-assumed writes only memory allocated during the call (not proved for readers; used where a wrapper calls them)
 //@ end
 
 //@ func newSSAEventFromString(header, content string, format map[int]string) (e *ssaEvent, err error)
@@ -627,11 +636,15 @@ package astisub
 //@ func ssaUpdateFormat(n string, formatMap map[string]bool, format []string) []string
 //@   prop C08
 //@   requires formatMap != nil
+//@   ensures arr(result) == arr(format) || fresh(arr(result))
+//@   assigns entries(formatMap), elems(format)
 //@ end
 
 //@ func (s ssaStyle) updateFormat(formatMap map[string]bool, format []string) []string
 //@   prop C08
 //@   requires formatMap != nil
+//@   ensures arr(result) == arr(format) || fresh(arr(result))
+//@   assigns entries(formatMap), elems(format)
 //@ end
 
 //@ func newSSAColorFromColor(i *Color) string
@@ -655,9 +668,13 @@ package astisub
 //@   requires writable(s) && o != nil
 //@   requires !o.wfailed
 //@   ensures [C18-fault-reported] o.wfailed ==> err != nil
-//@   loop 1: invariant forall m int :: 0 <= m && m < len(styleNames) ==> has(styles, styleNames[m]) && styles[styleNames[m]] != nil
-//@   loop 1: invariant styles != nil && formatMap != nil
+//@   loop 1: invariant forall m int :: 0 <= m && m < len(styleIDs) ==> has(s.Styles, styleIDs[m])
 //@   loop 2: invariant forall m int :: 0 <= m && m < len(styleNames) ==> has(styles, styleNames[m]) && styles[styleNames[m]] != nil
+//@   loop 2: invariant styles != nil && formatMap != nil
+//@   loop 2: invariant cap(styleNames) == 0 || arr(styleNames) != arr(format)
+//@   loop 2: invariant forall m int :: 0 <= m && m < len(styleIDs) ==> has(s.Styles, styleIDs[m])
+//@   loop 3: invariant forall m int :: 0 <= m && m < len(styleNames) ==> has(styles, styleNames[m]) && styles[styleNames[m]] != nil
+//@   assigns ghost(wfailed), ghost(src)
 //@ end
 
 // ---- STL ----
@@ -668,6 +685,7 @@ package astisub
 //@   requires !i.failed
 //@   ensures [C18-fault-reported] i.failed ==> err != nil
 //@   loop 1: invariant !i.failed
+//@   opt frame-assumed writes only memory allocated during the call (not proved for readers; used where a wrapper calls them)
 //@ end
 
 //@ func parseGSIBlock(b []byte) (g *gsiBlock, err error)
@@ -743,6 +761,7 @@ package astisub
 //@   requires !o.wfailed
 //@   ensures [C18-fault-reported] o.wfailed ==> err != nil
 //@   loop 1: invariant !o.wfailed
+//@   assigns ghost(wfailed), ghost(src)
 //@ end
 
 // ---- TTML ----
@@ -755,6 +774,7 @@ package astisub
 //@   loop 4: invariant !i.failed
 //@   loop 6: invariant l != nil && s != nil && !i.failed
 //@   loop 7: invariant l != nil && s != nil && !i.failed
+//@   opt frame-assumed writes only memory allocated during the call (not proved for readers; used where a wrapper calls them)
 //@ end
 
 //@ func (s Subtitles) WriteToTTML(o io.Writer, opts ...WriteToTTMLOption) (err error)
@@ -764,6 +784,7 @@ package astisub
 //@   ensures [C18-fault-reported] o.wfailed ==> err != nil
 //@   loop 2: invariant forall m int :: 0 <= m && m < len(k) ==> has(s.Regions, k[m])
 //@   loop 4: invariant forall m int :: 0 <= m && m < len(k) ==> has(s.Styles, k[m])
+//@   assigns ghost(wfailed), ghost(src)
 //@ end
 
 // ---- teletext ----
@@ -782,6 +803,7 @@ package astisub
 //@   loop 1: invariant forall k int :: 0 <= k && k < len(ps) ==> tpage(ps[k])
 //@   loop 2: invariant s != nil && cd != nil
 //@   loop 2: invariant forall k int :: 0 <= k && k < len(ps) ==> tpage(ps[k])
+//@   opt frame-assumed writes only memory allocated during the call (not proved for readers; used where a wrapper calls them)
 //@ end
 
 //@ func teletextDataTime(d *astits.DemuxerData) time.Time
@@ -889,6 +911,7 @@ package astisub
 //@   prop C08 C18
 //@   requires i != nil
 //@   ensures result != nil && result.src == ref(i) && !result.serr
+//@   assigns ghost(pos), ghost(failed), ghost(overlong), ghost(serr), ghost(src)
 //@ end
 
 //@ func Open(o Options) (s *Subtitles, err error)
@@ -907,6 +930,7 @@ package astisub
 //@   prop C08 C18
 //@   requires i != nil
 //@   ensures [C18-fault-reported] i.failed || i.overlong ==> err != nil
+//@   opt frame-assumed writes only memory allocated during the call (not proved for readers; used where a wrapper calls them)
 //@ end
 
 //@ func OpenFile(filename string) (*Subtitles, error)
